@@ -298,7 +298,14 @@ def _mixed(ctx, **params):
     return h_bmc(ctx, **params)
 
 
+def _flush(ctx, **params):
+    from .c13_channel import h_flush_params
+
+    return h_flush_params(ctx, **params)
+
+
 HARNESSES = {
+    "flush-params": Harness("flush-params", _flush, lambda tier: [{"n": n} for n in ((2,) if tier == "quick" else (2, 3))], style="BMC over configurations", bounds="a reliable channel's message flushed in one call with messages of partially reliable / unordered channels (solver-chosen kinds and order): it is handed to _send without lifetime, retransmission limit, and ordered", encoded=["aiortc.rtcsctptransport:RTCSctpTransport._data_channel_flush"], stubs=["RTCSctpTransport._send -> recorder"], twin="flushed", opts={"samples": 1}),
     "reuse": Harness("reuse", h_reuse, lambda tier: [{"has_channel": h} for h in (True, False)], style="STEP", bounds="one stream id, previous incarnation at a symbolic stream sequence number, incoming stream reset with / without a local channel object, then two messages of the next incarnation in swapped order; TSN origin symbolic", encoded=["aiortc.rtcsctptransport:RTCSctpTransport._receive_reconfig_param", "aiortc.rtcsctptransport:InboundStream.pop_messages"], twin="stream-reset-handled", opts={"samples": 1}),
     "mixed-pr": Harness(
         "mixed-pr",
